@@ -10,7 +10,7 @@ from vlib import sh, log
 
 GROUP = "Stream"
 BIN = "stream"
-OUT_RE = re.compile(r"^(?:wf=(\d) bytes=(\S+) )?dec=(\(.*\)) err=(\S+) cuts=(.*)$")
+OUT_RE = re.compile(r"^(?:wf=(\d) kinds=(\S+) bytes=(\S+) )?dec=(\(.*\)) err=(\S+) cuts=(.*)$")
 PANIC_SIG = "msgAppV2Decoder.decode: length prefix read from the stream is passed to make() unchecked (makeslice panic)"
 
 
@@ -59,7 +59,12 @@ def oracle(cases, impl):
         if not m:
             fails.append(dict(name="bad-" + cid, cid=cid, what="codec failed outside decode: " + out[:200]))
             continue
-        wf, _bytes, dec, err, cuts = m.groups()
+        wf, kinds, _bytes, dec, err, cuts = m.groups()
+        if kinds and kinds != "-":
+            for k in kinds:
+                bump("frame-" + {"0": "link-heartbeat", "1": "compact-AppEntries", "2": "full-MsgApp"}.get(k, k))
+        if _bytes and "^1048" in _bytes:
+            bump("stream-with-entry-or-message-around-1MiB")
         bump("%s/%s/%s" % (kind, codec, "wf" if wf == "1" else ("nonwf" if wf == "0" else "raw")))
         bump("err=" + err.split("(")[0])
         if "ALIASED" in dec:
